@@ -19,8 +19,8 @@ func init() {
 		Assumptions: []string{
 			"element identity of an inserted value = (operation timestamp, index in batch) as carried in the emitted operations; targets of delete/update are read from the emitted operations",
 		},
-		Cases: func(t string) int { return tierN(t, 1200, 60000) },
-		Floor: func(t string) int { return tierN(t, 250, 12000) },
+		Cases: func(t string) int { return tierN(t, 3000, 60000) },
+		Floor: func(t string) int { return tierN(t, 600, 12000) },
 		Run:   runC04,
 	})
 }
